@@ -51,7 +51,8 @@ def case(ops, qs=None):
 
 # the random part also registers names that cannot be written in a filter and
 # a wider range of types
-ODD_NAMES = [b"x.", b".x", b"", b"x..y", b"x y", b"x-y", "é".encode(), b"x.y.z.w", b"xx", b"Xy", b"x.Y", b"0", b"_"]
+ODD_NAMES = [b"x.", b".x", b"", b"x..y", b"x y", b"x-y", "é".encode(), b"x.y.z.w", b"xx", b"Xy", b"x.Y", b"0", b"_",
+             b"2fa", b"5xx.count", b"1.2", b"0x", b"x.0"]
 TYPES = ["bool", "int", "bytes", "ip", ("array", "bool"), ("map", "bool"), ("array", "int"), ("map", ("array", "bytes")),
          ("array", ("array", "bool"))]
 SAFE = set(b"abcdefghijklmnopqrstuvwxyzABCDEFGHIJKLMNOPQRSTUVWXYZ0123456789_.")
